@@ -41,7 +41,7 @@ package tcc
 //@   modifies *v.(*map[string]interface{})
 //@   ensures true
 //@ func (*TCCResourceManager).getBusinessActionContext
-//@   prop C05
+//@   prop C05 C19
 //@   may_panic
 //@   ensures result != nil && result.Xid == xid && result.BranchId == branchID && result.ActionName == resourceID
 //@   ensures only-from-decodable-data: len(applicationData) > 0 ==> called("Unmarshal#1") && callres("Unmarshal#1", 0) == nil
@@ -76,7 +76,7 @@ package tcc
 //@   at call Prepare#1: assert registered-before-try: (global ==> called("registeBranch#1") && callres("registeBranch#1", 0) == nil) && arg_params == params && cv.(*tm.ContextVariable).FencePhase == enum.FencePhasePrepare && arg_self == t.TCCResource.TwoPhaseAction
 
 //@ func (*TCCResourceManager).BranchCommit
-//@   prop C05
+//@   prop C05 C19
 //@   requires t != nil
 //@   let r := syncmap(t, "resourceManagerMap")[box(branchResource.ResourceId, string)]
 //@   let known := haskey(syncmap(t, "resourceManagerMap"), box(branchResource.ResourceId, string))
@@ -91,7 +91,7 @@ package tcc
 //@   at call Commit#1: assert context-for-the-fence: ctxvalue(arg_ctx, tm.seataContextVariable) != nil && ctxvalue(arg_ctx, tm.seataContextVariable).(*tm.ContextVariable).Xid == branchResource.Xid && ctxvalue(arg_ctx, tm.seataContextVariable).(*tm.ContextVariable).FencePhase == enum.FencePhaseCommit && ctxvalue(arg_ctx, tm.seataContextVariable).(*tm.ContextVariable).BusinessActionContext == arg_businessActionContext
 
 //@ func (*TCCResourceManager).BranchRollback
-//@   prop C05
+//@   prop C05 C19
 //@   requires t != nil
 //@   let r := syncmap(t, "resourceManagerMap")[box(branchResource.ResourceId, string)]
 //@   let known := haskey(syncmap(t, "resourceManagerMap"), box(branchResource.ResourceId, string))
